@@ -289,6 +289,11 @@ def fam_creation(g, prefix):
             ["take", "3", ["repeat", "7"]], ["take", "0", ["repeat", "7"]], ["first", ["repeat", "1"]],
             ["take_while", ["lt", "2"], ["from_iter", "0", "1", "2", "3"]], ["take", "2", ["range", "0", "5"]],
             ["take", "1", ["from_iter", "1", "2", "3"]],
+            # ENDLESS iterators given to from_iter / start_with: pulled only while the subscription lives
+            ["take", "3", ["from_iter_endless", "7"]], ["first", ["from_iter_endless", "1"]], ["take", "0", ["from_iter_endless", "7"]],
+            ["take", "2", ["start_with_endless", "7", ["just", "1"]]], ["first", ["start_with_endless", "7", ["never"]]],
+            ["take_while", ["lt", "8"], ["map", "inc", ["start_with_endless", "7", ["from_iter", "1", "2"]]]],
+            ["take", "1", ["merge", ["start_with_endless", "7", ["just", "1"]], ["just", "2"]]],
             # sources over the default scheduler: the task runs inside subscribe
             ["timer_d"], ["take", "3", ["interval_d"]], ["take", "0", ["interval_d"]], ["take", "1", ["interval_d"]], ["first", ["interval_d"]],
             ["take_while", ["lt", "2"], ["interval_d"]], ["element_at", "3", ["interval_d"]], ["take", "2", ["observe_on_d", ["interval_d"]]],
@@ -359,6 +364,14 @@ def fam_combinators(g, prefix, n_random):
     out = []
     i = 0
     combs = ["merge", "concat", "zip", "amb", "combine_latest", "sequence_equal", "take_until", "skip_until", "sample", "switch_on_next"]
+    # an EMPTY list of other sources (unusual argument): the operator must still mirror / pair / compare its receiver
+    for c in ("merge", "concat", "zip", "amb", "combine_latest", "sequence_equal"):
+        for evs in ([C_], [n_(1), C_], [n_(1), n_(2), C_], [e_(5)], [n_(1), e_(5)], [n_(1), n_(2)], []):
+            g.tag = 0
+            out.append(case("%s-%d" % (prefix, i), [["sub", g.combine_named(c, g.cold(evs), []), NOREACT]])); i += 1
+        out.append(case("%s-%d" % (prefix, i), [["subject", "a", "plain"], ["sub", g.combine_named(c, ["ref", "a"], []), NOREACT],
+                                                ["hnext", "a", "1"], ["hnext", "a", "2"], ["herror", "a", "5"]])); i += 1
+        out.append(case("%s-%d" % (prefix, i), [["counter", "k"], ["sub", ["retry", "2", g.combine_named(c, ["flaky", "0", "k", [n_(1), e_(5)], [n_(2), C_]], [])], NOREACT]])); i += 1
     for c in combs:
         for nsrc in (1, 2, 3):
             for rep in range(max(1, n_random // 20)):
@@ -699,7 +712,56 @@ def fam_reentrant_values(g, prefix, draws=2):
                     steps = [["subject", "a", "plain"], ["sub", ops[name](["ref", "a"]), ["react", [idx, act]]],
                              ["hnext", "a", "1"], ["hnext", "a", "2"], ["hnext", "a", "2"], ["hnext", "a", "3"], ["hcomplete", "a"]]
                     out.append(case("%s-%d" % (prefix, i), steps)); i += 1
+                # SEVERAL items pushed from inside one callback (a counter that is decremented / wraps per arriving item)
+                for vals in (("7", "8"), ("2", "2", "3"), ("0", "1", "2", "3")):
+                    g.tag = 0
+                    steps = [["subject", "a", "plain"], ["sub", ops[name](["ref", "a"]), ["react"] + [[idx, ["hnext", "a", v]] for v in vals]],
+                             ["hnext", "a", "1"], ["hnext", "a", "2"], ["hnext", "a", "3"], ["hcomplete", "a"]]
+                    out.append(case("%s-%d" % (prefix, i), steps)); i += 1
     return out
+
+def ending_closure_steps(g):
+    """the closure GIVEN TO an operator (flat_map's function, retry_when's predicate, the resume function, a tap callback)
+    ends the subscription when it is called and then answers as usual: the operator goes on - attaches the inner source,
+    the next attempt, the replacement - for a subscription that ended inside its own closure.  Nothing may stay attached."""
+    out = []
+    T = lambda: g.newtag()
+    for fm in (["fm_ref", "b"], "fm_just", "fm_two"):
+        g.tag = 0
+        out.append([["subject", "a", "plain"], ["subject", "b", "plain"], ["sub", ["flat_map_u", "0", fm, ["tap", T(), ["ref", "a"]]], NOREACT],
+                    ["hnext", "a", "0"], ["hnext", "b", "5"], ["hnext", "a", "0"], ["hnext", "b", "6"]])
+        g.tag = 0
+        out.append([["subject", "a", "plain"], ["subject", "b", "plain"], ["sub", ["take", "3", ["flat_map_u", "0", fm, ["ref", "a"]]], ["react", ["0", ["hnext", "a", "0"]]]],
+                    ["hnext", "a", "0"], ["hnext", "b", "5"]])
+    for ep in ("tt", ["eq", "5"], "ff"):
+        g.tag = 0
+        out.append([["subject", "a", "plain"], ["sub", ["retry_when_u", "0", ep, ["tap", T(), ["ref", "a"]]], NOREACT], ["hnext", "a", "1"], ["herror", "a", "5"], ["hnext", "a", "2"]])
+        g.tag = 0
+        out.append([["subject", "a", "plain"], ["subject", "b", "plain"], ["sub", ["retry_when_u", "0", ep, ["merge", ["tap", T(), ["ref", "a"]], ["tap", T(), ["ref", "b"]]]], NOREACT],
+                    ["hnext", "a", "1"], ["herror", "b", "5"], ["hnext", "a", "2"], ["hnext", "b", "3"]])
+        g.tag = 0
+        out.append([["subject", "a", "behavior", "0"], ["sub", ["retry_when_u", "0", ep, ["tap", T(), ["ref", "a"]]], NOREACT], ["hnext", "a", "1"], ["herror", "a", "5"], ["hnext", "a", "2"]])
+    for rs in ("rs_same", ["rs_ref", "b"], ["rs_just", "8"], "rs_empty"):
+        g.tag = 0
+        out.append([["subject", "a", "plain"], ["subject", "b", "plain"], ["sub", ["on_error_resume_next_u", "0", rs, ["tap", T(), ["ref", "a"]]], NOREACT],
+                    ["hnext", "a", "1"], ["herror", "a", "5"], ["hnext", "b", "2"], ["hnext", "a", "3"]])
+    for mk in (lambda q: ["map", "inc", q], lambda q: ["scan", "add", q], lambda q: ["merge", q, ["ref", "b"]], lambda q: ["concat", q, ["ref", "b"]],
+               lambda q: ["flat_map", ["fm_ref", "b"], q], lambda q: ["retry", "2", q], lambda q: ["on_error_resume_next", ["rs_ref", "b"], q],
+               lambda q: ["switch_on_next", q, ["ref", "b"]], lambda q: ["take_until", q, ["ref", "b"]], lambda q: ["zip", q, ["ref", "b"]]):
+        g.tag = 0
+        out.append([["subject", "a", "plain"], ["subject", "b", "plain"], ["sub", mk(["tap_unsub", T(), "0", ["ref", "a"]]), NOREACT],
+                    ["hnext", "a", "0"], ["hnext", "b", "5"], ["hnext", "a", "1"]])
+        g.tag = 0
+        out.append([["subject", "a", "plain"], ["subject", "b", "plain"], ["sub", mk(["tap_unsub", T(), "0", ["ref", "a"]]), NOREACT],
+                    ["herror", "a", "5"], ["hnext", "b", "5"], ["hnext", "a", "1"]])
+    # the closure of the SECOND subscriber ends the FIRST subscription (shared hot source)
+    g.tag = 0
+    out.append([["subject", "a", "plain"], ["subject", "b", "plain"], ["sub", ["map", "inc", ["ref", "a"]], NOREACT],
+                ["sub", ["flat_map_u", "0", ["fm_ref", "b"], ["ref", "a"]], NOREACT], ["hnext", "a", "0"], ["hnext", "b", "5"], ["unsub", "1"], ["hnext", "b", "6"]])
+    return out
+
+def fam_ending_closures(g, prefix, drop=False):
+    return [case("%s-%d" % (prefix, i), st + ([["unsub", "0"], ["drop"]] if drop else [])) for i, st in enumerate(ending_closure_steps(g))]
 
 def fam_teardown(g, prefix, n_random):
     """every terminating cause of C06 over probed sources (long cold scripts, repeat, subjects)"""
@@ -739,6 +801,8 @@ def fam_teardown(g, prefix, n_random):
         if rep is not None:
             add([["sub", mk(["repeat", rep]), NOREACT]])
             add([["sub", mk(["interval_d"]), NOREACT]])     # counts 0,1,2,..: every ender above is satisfied by some count
+            add([["sub", mk(["from_iter_endless", rep]), NOREACT]])
+            add([["sub", mk(["start_with_endless", rep, ["just", "9"]]), NOREACT]])
         # hot source: the subject must not hold the observer afterwards
         steps = [["subject", "a", "plain"], ["sub", mk(["ref", "a"]), NOREACT]] + [["hnext", "a", str(v)] for v in (1, 2, 3, 0, 1)]
         add(steps)
@@ -952,6 +1016,23 @@ def fam_release(g, prefix, n_random):
         for mk in (lambda q: q, lambda q: ["map", "inc", q], lambda q: ["take", "1", q]):
             for tail in ([["hcomplete", "a"]], [["herror", "a", "6"]], [["unsub", "0"], ["unsub", "1"]], [["unsub", "0"], ["hnext", "a", "3"], ["hcomplete", "a"]]):
                 add([sj, ["sub", mk(["ref", "a"]), NOREACT], ["hnext", "a", "1"], ["sub", mk(["ref", "a"]), NOREACT], ["hnext", "a", "2"]] + tail + [["unsub", "0"], ["unsub", "1"]])
+    # a late subscriber that has all it needs out of the HISTORY of a replay / behavior subject (or of replay()): it ends
+    # while it is still being handed the stored items; the others leave afterwards
+    enders = [(lambda q: ["take", "1", q], NOREACT), (lambda q: ["take", "2", q], NOREACT), (lambda q: ["first", q], NOREACT),
+              (lambda q: q, ["react", ["0", "unsub"]]), (lambda q: ["map", "inc", q], ["react", ["1", "unsub"]]),
+              (lambda q: ["take_while", ["lt", "2"], q], NOREACT)]
+    for kind in ("replay", "behavior"):
+        sj = ["subject", "a", kind] + (["0"] if kind == "behavior" else [])
+        for mk, react in enders:
+            for tail in ([["unsub", "0"]], [["hnext", "a", "3"], ["unsub", "0"]], [["hcomplete", "a"]], [["unsub", "0"], ["hnext", "a", "3"]]):
+                g.tag = 0
+                add([sj, ["sub", ["tap", g.newtag(), ["ref", "a"]], NOREACT], ["hnext", "a", "1"], ["hnext", "a", "2"],
+                     ["sub", mk(["map", "inc", ["ref", "a"]]), react]] + tail + [["unsub", "0"], ["unsub", "1"]])
+    for mk, react in enders:
+        for tail in ([["unsub", "0"]], [["hnext", "a", "3"], ["unsub", "0"]], [["hcomplete", "a"]]):
+            g.tag = 0
+            add([["subject", "a", "plain"], ["conn", "x", "replay", ["map", "inc", ["ref", "a"]]], ["sub", ["ref", "x"], NOREACT], ["hnext", "a", "1"], ["hnext", "a", "2"],
+                 ["sub", mk(["tap", g.newtag(), ["ref", "x"]]), react]] + tail + [["unsub", "0"], ["unsub", "1"]])
     for j in range(n_random):
         g.tag = 0
         p = g.pipe_typed(g.r.randint(1, 3), hot=("a",))
@@ -1076,6 +1157,11 @@ def fam_errors(g, prefix, n_random):
             add([["sub", g.combine_named(c, g.cold(items[:pos] + [e_(5)]), [g.cold([n_(7), n_(8), C_])]), NOREACT]])
             g.tag = 0
             add([["sub", g.combine_named(c, g.cold([n_(7), n_(8), C_]), [g.cold(items[:pos] + [e_(6)])]), NOREACT]])
+    for c in ("merge", "concat", "zip", "amb", "combine_latest", "sequence_equal"):
+        for pos in range(len(items) + 1):
+            g.tag = 0
+            add([["sub", g.combine_named(c, g.cold(items[:pos] + [e_(5)]), []), NOREACT]])       # no other source at all
+        add([["counter", "k"], ["sub", ["retry", "2", g.combine_named(c, ["flaky", "0", "k", [n_(1), e_(5)], [n_(2), C_]], [])], NOREACT]])
     attempts = [[n_(1), e_(5)], [n_(2), n_(3), e_(5)], [e_(5)], [n_(4), C_], [n_(5), e_(6)]]
     for budget in ("0", "1", "2", "3", "4"):
         for k in range(1, 6):
